@@ -90,7 +90,7 @@ fn alt_s() -> impl Strategy<Value = u16> {
 fn kind_s() -> impl Strategy<Value = Kind> {
     prop_oneof![
         2 => (proptest::array::uniform8(prop_oneof![4 => 1u8..27, 2 => 48u8..58, 2 => Just(32u8), 1 => 0u8..64]), 1u8..5).prop_map(|(codes, tc)| Kind::Ident { codes, tc }),
-        2 => (prop_oneof![6 => 1u8..3, 1 => 0u8..8], prop_oneof![1 => Just(0u16), 8 => 1u16..1024], any::<bool>(), prop_oneof![1 => Just(0u16), 8 => 1u16..1024], any::<bool>(), prop_oneof![1 => Just(0u16), 8 => 1u16..512], any::<bool>())
+        3 => (prop_oneof![6 => 1u8..3, 1 => 0u8..8], prop_oneof![1 => Just(0u16), 4 => 1u16..1024, 4 => prop_oneof![Just(121u16), Just(431)]], any::<bool>(), prop_oneof![1 => Just(0u16), 4 => 1u16..1024, 4 => prop_oneof![Just(121u16), Just(431)]], any::<bool>(), prop_oneof![1 => Just(0u16), 8 => 1u16..512], any::<bool>())
             .prop_map(|(st, ew, ew_sign, ns, ns_sign, vr, vr_sign)| Kind::Velocity { st, ew, ew_sign, ns, ns_sign, vr, vr_sign }),
         9 => (any::<bool>(), prop_oneof![9u8..19, 20u8..23], alt_s(), possrc_s()).prop_map(|(odd, tc, alt, src)| Kind::Position { odd, tc, alt, src }),
         1 => (prop_oneof![Just(0u8), 5u8..9, 23u8..32], any::<u64>()).prop_map(|(tc, fill)| Kind::OtherMe { tc, fill }),
@@ -480,12 +480,53 @@ pub fn run_history(s: &Scenario, only: Option<u8>, trace: bool) -> RunOut {
         // invariants over every record, after every op
         invariants(&planes, &model, &mut fails);
         if !fails.is_empty() {
-            out.fails = fails;
-            break;
+            // the model follows the implementation where they disagree, so that the rest of the
+            // history is still compared (each failure is reported once, at the op that caused it)
+            resync(&mut model, &planes);
+            let fatal = fails.iter().any(|f| f.0.starts_with("C01/"));
+            for f in fails {
+                if !out.fails.iter().any(|g| g.0 == f.0) {
+                    out.fails.push(f);
+                }
+            }
+            if fatal || out.fails.len() > 12 {
+                break;
+            }
         }
     }
     out.planes = planes;
     out
+}
+
+/// make the model agree with the implementation on everything the next ops depend on
+fn resync(model: &mut Model, planes: &Airplanes) {
+    let keys: Vec<u32> = planes.keys().map(icao_u).collect();
+    model.recs.retain(|k, _| keys.contains(k));
+    for (k, st) in planes.iter() {
+        let rec = model.recs.entry(icao_u(k)).or_default();
+        rec.count = st.num_messages;
+        let c = &st.coords;
+        let p = c.position.map(|p| (p.latitude, p.longitude));
+        if rec.position.map(|a| p.map(|b| !pos_eq(a, b)).unwrap_or(true)).unwrap_or(p.is_some()) {
+            rec.position = p;
+        }
+        for i in 0..2 {
+            match (&rec.slots[i], &c.altitudes[i]) {
+                (_, None) => rec.slots[i] = None,
+                (Some(e), Some(a)) if e.yz == a.lat_cpr && e.xz == a.lon_cpr => {}
+                (_, Some(a)) => rec.slots[i] = Some(PosRep { yz: a.lat_cpr, xz: a.lon_cpr, alt: a.alt.map(|x| x as i64), alt_code: 0 }),
+            }
+        }
+        // latest-wins attributes: adopt what the implementation holds
+        if let (Some(h), Some(sp), Some(vr)) = (st.heading, st.speed, st.vert_speed) {
+            rec.velocity = Some((h as f64, sp as f64, vr as i64));
+        } else {
+            rec.velocity = None;
+        }
+        rec.callsign = st.callsign.clone();
+        // the track history is rebuilt from the implementation's positioned entries
+        rec.history = st.track.as_ref().map(|t| t.iter().filter_map(|e| e.position.map(|p| ((p.latitude, p.longitude), false))).collect()).unwrap_or_default();
+    }
 }
 
 #[allow(clippy::too_many_arguments)]
